@@ -247,6 +247,8 @@ type Shared struct {
 	// templates, menu labels and static symbol contents as db entries, translated entries
 	// under their language) instead of MenuResource getters
 	UseDb bool
+	// DbStore (UseDb): the store object to populate and serve from, instead of a new one
+	DbStore db.Db
 	// UsePo: serve templates and menu labels through resource.PoResource over generated
 	// gettext catalogues in PoDir (default language eng: node -> template and label ->
 	// text in the key domains; per translated language: default text -> translated text)
@@ -406,8 +408,13 @@ type callOrdinalKey struct{}
 func (s *Shared) dbResource(rec *Recorder) resource.Resource {
 	a := s.App
 	ctx := context.Background()
-	store := memdb.NewMemDb()
-	store.Connect(ctx, "")
+	// (DbStore: the application keeps everything in one store object, which also holds
+	// the sessions - the set-up of the repository's examples/db)
+	store := s.DbStore
+	if store == nil {
+		store = memdb.NewMemDb()
+		store.Connect(ctx, "")
+	}
 	store.SetLock(db.DATATYPE_BIN|db.DATATYPE_MENU|db.DATATYPE_TEMPLATE|db.DATATYPE_STATICLOAD, false)
 	put := func(typ uint8, key string, val []byte, l string) {
 		store.SetPrefix(typ)
